@@ -15,10 +15,12 @@ from ..scen import REQ, RESP, hb
 LEVEL = 'exploration'
 RULE = ('each case = one pattern (open+END_STREAM churn, open+RST churn, PRIORITY spray, WINDOW_UPDATE/RST_STREAM on idle and '
         'closed ids, unknown frame types, unknown SETTINGS ids, CONTINUATION chains of 61..66 frames with/without END_HEADERS, '
-        'header lists at MHLS-1/MHLS/MHLS+1 for several acknowledged MHLS values set alone or together with other settings, '
+        'header lists at MHLS-1/MHLS/MHLS+1 for several acknowledged MHLS values set alone or together with other settings, or after '
+        '2-4 changes (values returning to earlier ones, some still unacknowledged), '
         'refused pushes) of 2N frames on a server or client with a census at N and 2N; non-trivial = census compared or a '
         'limit boundary judged; distinct = (pattern, role, parameters)')
-MINIMA = {'non_opening_frames_checked': 100000, 'continuation_chains_judged': 300, 'header_list_limits_judged': 600,
+MINIMA = {'non_opening_frames_checked': 100000, 'continuation_chains_judged': 300, 'header_list_limits_judged': 600, 'header_list_limits_judged_after_several_changes': 200,
+          'header_list_limits_judged_with_changes_in_flight': 50,
           'census_comparisons': 300, 'closed_stream_cap_reached': 100,
           'cases_with_unlimited_local_stream_limit': 60, 'cases_without_forced_cleanup': 200}
 
@@ -303,8 +305,75 @@ def run_continuation(rng, rep, e_client):
                     return
 
 
+def run_mhls_history(rng, rep, e_client):
+    """Several MAX_HEADER_LIST_SIZE changes, some still unacknowledged, values that return to an earlier one: the limit
+    in force is the value of the last change the peer has acknowledged."""
+    for _ in range(8):
+        h = scen.Hostile(e_client, keep_log=False)
+        t = h.t
+        pool = rng.sample([100, 400, 401, 4096, 65536, 20000], 2)
+        vals = [rng.choice(pool) for _ in range(rng.choice([2, 3, 4]))]
+        acked, sent, ok = 0, 0, True
+        for v in vals:
+            d = {6: v}
+            if rng.random() < 0.2:
+                d[rng.choice([3, 4])] = rng.choice([50, 70000])
+            ok = ok and t.call('update_settings', d).ok
+            sent += 1
+            while acked < sent and rng.random() < 0.4:
+                ok = ok and h.send(wire.build_settings(ack=True)).ok
+                acked += 1
+        while acked < sent and rng.random() < 0.8:
+            ok = ok and h.send(wire.build_settings(ack=True)).ok
+            acked += 1
+        if not ok:
+            continue
+        limit = vals[acked - 1] if acked else 65536
+        delta = rng.choice([-1, 0, 1, 1, 1000])
+        base = RESP if e_client else REQ
+        size = hm.header_list_size(base)
+        target = limit + delta
+        if target < size + 33 + 3:
+            continue
+        hs = base + [(b'x-f', b'f' * (target - size - 32 - len(b'x-f')))]
+        if e_client:
+            sid, _ = h.e_request()
+        else:
+            sid = h.peer_next
+        block = hb(hs)
+        data, pos = b'', 0
+        while pos < len(block) or not data:
+            data += (wire.build_headers(sid, block[:16000], end_headers=len(block) <= 16000, end_stream=True) if pos == 0 else
+                     wire.build_continuation(sid, block[pos:pos + 16000], end_headers=(pos + 16000 >= len(block))))
+            pos += 16000
+        res = h.send(data)
+        rep.count('header_list_limits_judged')
+        rep.count('header_list_limits_judged_after_several_changes')
+        if acked < sent:
+            rep.count('header_list_limits_judged_with_changes_in_flight')
+        rep.nontrivial(('mhls-history', e_client, tuple(vals), acked, delta))
+        w = {'role': 'client' if e_client else 'server', 'MAX_HEADER_LIST_SIZE_values_sent': vals, 'acknowledged_frames': acked,
+             'limit_in_force': limit, 'list_size': target}
+        if target > limit:
+            code = getattr(res.exc, 'error_code', None)
+            if res.exc is None:
+                rep.violation('C27:oversized-header-list-delivered', 'decoded list of %d octets delivered; MAX_HEADER_LIST_SIZE values sent %s, '
+                              '%d of them acknowledged, so %d is in force' % (target, vals, acked, limit), w)
+                return
+            if not isinstance(res.exc, h2.exceptions.ProtocolError) or code is None or int(code) != wire.ENHANCE_YOUR_CALM:
+                rep.violation('C27:oversized-header-list-wrong-code:got-%s' % code, 'oversized list refused with %s code %r' %
+                              (core.exc_key(res.exc), code), w)
+                return
+        elif res.exc is not None:
+            rep.violation('C27:header-list-within-limit-refused', 'list of %d octets refused; values sent %s, %d acknowledged, limit in force %d: %r' %
+                          (target, vals, acked, limit, res.exc), w)
+            return
+
+
 def run_mhls(rng, rep, e_client):
     """Decoded header lists at the acknowledged MAX_HEADER_LIST_SIZE boundary."""
+    if rng.random() < 0.5:
+        return run_mhls_history(rng, rep, e_client)
     for limit in [100, 65536, rng.choice([0, 33, 500, 4096, 20000])]:
         for companion in [None, {4: 70000}, {5: 20000}, {1: 100}, {3: 7}, {4: 1000, 5: 16385}]:
             for delta in (-1, 0, 1):
